@@ -131,7 +131,8 @@ def run(ctx):
 
     # ---- 1. design: loader machine == declarative meaning, laws of the meaning
     mcs = ["MC_ConfigExpand_quick_features.cfg", "MC_ConfigExpand_quick_lists.cfg"] if q else \
-          ["MC_ConfigExpand_features.cfg", "MC_ConfigExpand_inc.cfg", "MC_ConfigExpand_exc.cfg", "MC_ConfigExpand_lists.cfg"]
+          ["MC_ConfigExpand_features.cfg", "MC_ConfigExpand_inc.cfg", "MC_ConfigExpand_exc.cfg", "MC_ConfigExpand_lists.cfg",
+           "MC_ConfigExpand_quick_lists.cfg"]
     ctx.notes["mc_design"] = []
     for cfg in mcs:
         mc = ctx.tlc("MC_ConfigExpand", cfg, timeout=2400)
@@ -140,10 +141,10 @@ def run(ctx):
     # ---- 2. spec -> code: generated configurations with the verdict the meaning requires
     ph = ctx.seed
     gens = [("features", {}, None), ("passive", {}, None), ("streams", {}, None),
-            ("include", dict(VERIF_ESTRIDE=ctx.pick(8, 1)), None),
-            ("exclude", dict(VERIF_ESTRIDE=ctx.pick(8, 1)), None),
+            ("include", dict(VERIF_ESTRIDE=ctx.pick(12, 2)), None),
+            ("exclude", dict(VERIF_ESTRIDE=ctx.pick(12, 2)), None),
             ("lists", dict(VERIF_ESTRIDE=ctx.pick(2, 1)), None),
-            ("walk", {}, "num=%d" % ctx.pick(1500, 15000))]
+            ("walk", {}, "num=%d" % ctx.pick(1500, 10000))]
     scnp = os.path.join(ctx.build, "c06.scn.ndjson")
     counts = {}
     total = 0
@@ -209,7 +210,7 @@ def run(ctx):
 
     # ---- 3. code -> spec: parseConfig on random configurations beyond the TLC domain + shipped files
     trp = os.path.join(ctx.build, "c06.trace.ndjson")
-    ctx.run_harness(binp, "TestVerifC06Record", env=dict(VERIF_OUT=trp, VERIF_N=ctx.pick(12000, 60000),
+    ctx.run_harness(binp, "TestVerifC06Record", env=dict(VERIF_OUT=trp, VERIF_N=ctx.pick(8000, 60000),
                     VERIF_YAML_DIR=os.path.join(vf.REPO, "testing")), timeout=3000)
     recs = vf.read_ndjson(trp)
     files = [r for r in recs if r["src"].startswith("file:")]
@@ -243,7 +244,7 @@ def run(ctx):
         "TLC enumerates configurations as construction behaviours (flags, axes, entries): all version x protocol subsets x 8 "
         "stream-type classes x 3^5 interacting flag tri-states; all 32 stream subsets x version subsets; all codec subsets x "
         "compression sets x get/limit tri-states; one include / one exclude from a 1008-entry pool (every combination of the "
-        "interacting entry fields) x 24 axis sets x 16 flag seeds (quick: every 8th entry, offset by VERIF_SEED); lists of <= 2 "
+        "interacting entry fields) x 24 axis sets x 16 flag seeds (thorough: every 2nd entry, quick: every 12th, sample chosen by VERIF_SEED); lists of <= 2 "
         "includes + <= 1 exclude from a 16-entry pool; random walks up to 4+4 entries. Each carries the verdict computed by the "
         "declarative operators and is replayed on parseConfig in two encodings (protojson, YAML). Recorded direction: seeded random "
         "configurations over all 19 axis values (any order, repetitions), 0-4 includes, 0-4 excludes, plus testing/*.yaml and the "
